@@ -996,6 +996,19 @@ M("c18-f34-reintroduced", ["C18"], ["C18.initial"],
 M("c02-f35-reintroduced", ["C02", "C12"], ["C02.once", "C12.same-path"],
   E(CB, """        # a snapshot: a callback may attach a listener (`add_listener`), which adds to `items`
         return iter(tuple(self.items))""", """        return iter(self.items)"""))
+M("c16-f36-reintroduced", ["C16"], ["C16.defwrite"],
+  E(ST, """        # every transition is built (and validated) before any of them is attached to its origin
+        transitions = TransitionList(Transition(origin, self._state, **kwargs) for origin in states)
+        for transition in transitions:
+            transition.source.transitions.add_transitions(transition)
+        return transitions
+""", """        transitions = TransitionList()
+        for origin in states:
+            transition = Transition(origin, self._state, **kwargs)
+            origin.transitions.add_transitions(transition)
+            transitions.add_transitions(transition)
+        return transitions
+"""))
 M("c08-f33-reintroduced", ["C08"], ["C08.when"],
   E(DISP, "        except (SyntaxError, UnsupportedExpression) as err:", "        except SyntaxError as err:"))
 M("c08-compare-lookup-unguarded", ["C08"], ["C08.when"],
@@ -1151,12 +1164,11 @@ M("c17-getstate-no-copy", "C17", ["C17.carry"],
 
 # ----------------------------------------------------------------------------------------- C15
 M("c15-from-swaps-second-origin", "C15", ["C15.to/from"],
-  E(ST, """        for origin in states:
-            transition = Transition(origin, self._state, **kwargs)""", """        for index, origin in enumerate(states):
-            if index == 0:
-                transition = Transition(origin, self._state, **kwargs)
-            else:
-                transition = Transition(self._state, origin, **kwargs)"""))
+  E(ST, """        transitions = TransitionList(Transition(origin, self._state, **kwargs) for origin in states)""",
+    """        transitions = TransitionList(
+            Transition(origin, self._state, **kwargs) if index == 0 else Transition(self._state, origin, **kwargs)
+            for index, origin in enumerate(states)
+        )"""))
 M("c15-or-rebuilds-right-operand", "C15", ["C15.or"],
   E(TL, "        return TransitionList(self.transitions).add_transitions(other)",
     "        return TransitionList(self.transitions).add_transitions(\n            [Transition(t.source, t.target, event=t.event) for t in other]\n        )"),
